@@ -209,6 +209,7 @@ type PktCase struct {
 	Dst     []byte   `json:"dst"`
 	IPOpts  []byte   `json:"ip_opts,omitempty"` // raw option area content expressed as NOP-count or one option
 	IPOptT  byte     `json:"ip_opt_type,omitempty"`
+	IPPad   []byte   `json:"ip_pad,omitempty"` // explicit padding bytes behind the options (a decoded header keeps what followed the last option)
 	ID      uint16   `json:"id"`
 	TTL     byte     `json:"ttl"`
 	TOS     byte     `json:"tos"`
@@ -230,6 +231,14 @@ type PktCase struct {
 
 var opts = gopacket.SerializeOptions{FixLengths: true, ComputeChecksums: true}
 
+func optionBytes(ip *layers.IPv4) int {
+	n := 0
+	for _, o := range ip.Options {
+		n += int(o.OptionLength)
+	}
+	return n
+}
+
 func (c *PktCase) build(payload []byte) ([]byte, error) {
 	eth := &layers.Ethernet{SrcMAC: net.HardwareAddr{2, 0, 0, 0, 0, 1}, DstMAC: net.HardwareAddr{2, 0, 0, 0, 0, 2}}
 	var ls []gopacket.SerializableLayer
@@ -249,6 +258,14 @@ func (c *PktCase) build(payload []byte) ([]byte, error) {
 			}
 		} else if c.IPOptT != 0 {
 			ip.Options = append(ip.Options, layers.IPv4Option{OptionType: c.IPOptT, OptionLength: uint8(len(c.IPOpts) + 2), OptionData: c.IPOpts})
+		}
+		if n := optionBytes(ip) + 1; n%4 != 0 && n < 40 && len(c.IPPad) > 0 {
+			// End-of-Option-List, then explicit padding: whatever bytes follow the end marker up to the 32 bit boundary
+			ip.Options = append(ip.Options, layers.IPv4Option{OptionType: 0, OptionLength: 1})
+			ip.Padding = append([]byte(nil), c.IPPad[:min(len(c.IPPad), 4-n%4)]...)
+			for len(ip.Padding) < 4-n%4 {
+				ip.Padding = append(ip.Padding, 0)
+			}
 		}
 		ls = append(ls, eth, ip)
 		nl = ip
@@ -718,6 +735,9 @@ func genPkt(t *rapid.T) *PktCase {
 		case 2:
 			c.IPOptT = rapid.SampledFrom([]byte{7, 68, 131, 148}).Draw(t, "optt")
 			c.IPOpts = rapid.SliceOfN(rapid.Byte(), 1, 38).Draw(t, "optdata") // the decoder rejects data-less options (length 2)
+		}
+		if c.IPOptT != 0 && rapid.Bool().Draw(t, "ippad") {
+			c.IPPad = rapid.SliceOfN(rapid.Byte(), 1, 3).Draw(t, "ippadding")
 		}
 	}
 	c.ID = rapid.Uint16().Draw(t, "id")
